@@ -1,6 +1,7 @@
 package main
 
 import (
+	"time"
 	"regexp"
 	"reflect"
 	"encoding/json"
@@ -287,6 +288,11 @@ func c02Typed(g *Gen, s c02Setup, root *ucfg.Config, opts []ucfg.Option, eo, roo
 				fs = append(fs, fld{k, len(x)})
 			}
 		default:
+			if strings.HasPrefix(k, "du") {
+				// a time.Duration field (the witnesses let such settings stand for whole numbers of seconds)
+				fs = append(fs, fld{k, -4})
+				continue
+			}
 			if strings.HasPrefix(k, "re") {
 				// a *regexp.Regexp field (the witnesses give such settings valid expressions)
 				fs = append(fs, fld{k, -3})
@@ -313,6 +319,9 @@ func c02Typed(g *Gen, s c02Setup, root *ucfg.Config, opts []ucfg.Option, eo, roo
 		} else if f.list == -2 {
 			t = reflect.TypeOf([]string(nil))
 			cf = append(cf, "TSlice "+coqStr(f.key))
+		} else if f.list == -4 {
+			t = reflect.TypeOf(time.Duration(0))
+			cf = append(cf, "TDur "+coqStr(f.key))
 		} else if f.list == -3 {
 			t = reflect.TypeOf((*regexp.Regexp)(nil))
 			cf = append(cf, "TRe "+coqStr(f.key))
@@ -347,6 +356,8 @@ func c02Typed(g *Gen, s c02Setup, root *ucfg.Config, opts []ucfg.Option, eo, roo
 					es = append(es, "OStr "+coqStr(v.Index(j).String()))
 				}
 				ents = append(ents, fmt.Sprintf("(%s, OList %s)", coqStr(f.key), coqList(es)))
+			} else if f.list == -4 {
+				ents = append(ents, fmt.Sprintf("(%s, OInt (%d))", coqStr(f.key), v.Int()))
 			} else if f.list == -3 {
 				txt := ""
 				if re, ok := v.Interface().(*regexp.Regexp); ok && re != nil {
@@ -362,6 +373,44 @@ func c02Typed(g *Gen, s c02Setup, root *ucfg.Config, opts []ucfg.Option, eo, roo
 	g.Add(Case{Coq: fmt.Sprintf("CTyped %s %s %s %s", eo, rootC, coqList(cf), xo),
 		Desc: map[string]interface{}{"kind": "typed", "setup": encSetup(s), "tree": descValueExp(dump), "fields": fmt.Sprint(fs), "observed": xd},
 		Tags: append([]string{"typed"}, tags...), Nontrivial: true})
+}
+
+// c02RootList: a configuration whose ROOT carries a list part (merged into the empty config first)
+// next to named settings merged in afterwards: the entries are read by index at the root, their
+// references are looked up from the root they live in and see what was merged later
+func c02RootList(g *Gen, list []interface{}, named map[string]interface{}, tag string) {
+	base := []ucfg.Option{ucfg.PathSep("."), ucfg.VarExp}
+	root := ucfg.New()
+	if err := root.Merge(list, base...); err != nil {
+		g.Skip("setup does not normalize")
+		return
+	}
+	if err := root.Merge(named, base...); err != nil {
+		g.Skip("setup does not normalize")
+		return
+	}
+	s := c02Setup{Root: named}
+	_, opts, eo, ok := s.build()
+	if !ok {
+		return
+	}
+	dump := ucfg.VerifDump(root)
+	rootC := coqValue(dump)
+	for i := range list {
+		var str string
+		var err error
+		var obs, d string
+		if p, m := guard(func() { str, err = root.String("", i, opts...) }); p {
+			obs, d = "OPanic", "PANIC "+m
+		} else if err != nil {
+			obs, d = coqErr(err), descErr(err)
+		} else {
+			obs, d = "(OV (VStr "+coqStr(str)+"))", fmt.Sprintf("%q", str)
+		}
+		g.Add(Case{Coq: fmt.Sprintf("CRead %s %s \"\" %d %s", eo, rootC, i, obs),
+			Desc: map[string]interface{}{"kind": "read", "rootlist": encTree(map[string]interface{}{"l": list}), "setup": encSetup(s), "tree": descValueExp(dump), "name": "", "idx": i, "observed": d},
+			Tags: []string{"read", "rootlist", tag}, Nontrivial: true})
+	}
 }
 
 func collectNames(m map[string]interface{}, prefix string) []string {
@@ -485,6 +534,7 @@ func genC02(g *Gen, c08 bool) {
 	}
 	// fixed witnesses first
 	w := []c02Setup{
+		{Root: map[string]interface{}{"n": 5, "du1": "${n}", "du2": 7, "du3": "${du2}", "du4": "${du3}", "du5": "${m}"}, Envs: []map[string]interface{}{{"m": uint64(90)}}}, // a number of seconds reached through references
 		{Root: map[string]interface{}{"b": "${nope}"}},                                                               // F4
 		{Root: map[string]interface{}{"a": "${b}", "b": "${a}"}},                                                     // F4 cycle
 		{Root: map[string]interface{}{"t": "${e}"}, Envs: []map[string]interface{}{{"e": "v"}}},                      // F5
@@ -517,6 +567,8 @@ func genC02(g *Gen, c08 bool) {
 	for i, s := range w {
 		c02Cases(g, s, fmt.Sprintf("witness:%d", i))
 	}
+	c02RootList(g, []interface{}{"${name}", "host-${net.port:none}", "${nope:dflt}", "x"}, map[string]interface{}{"name": "late", "net": map[string]interface{}{"port": 8080}}, "witness:rootlist")
+	c02RootList(g, []interface{}{"${a}"}, map[string]interface{}{"a": "${b}", "b": uint64(3)}, "witness:rootlist")
 	if !c08 {
 		for _, txt := range []string{"$$", "$}", "$", "a$", "100 US$$", "block {$}", "${a}$$", "${a}$}", "$$${a}", "$${a}", "x$$y$}z", "${a:$$}", "${a:x$}", "$$$", "$}$", "${", "${a", "a${"} {
 			c02Expr(g, txt)
